@@ -5,29 +5,32 @@ From Az65 Require Import Base Token Expr ExprParse Linker Asm Arch ArchTables Ar
 From Az65.Gen Require Import Tables.
 
 (* reading a token pattern as Zilog operands; operand values come from the slot bytes *)
-Fixpoint read_z80 (p : list pat) (slot : nat) (f : nat -> nat -> N) : option (list opnd) :=
+(* `( n )` with an 8-bit n is a port for in / out and -- since the repair of the parenthesised immediates of
+   adc / add / sbc / cp -- a plain immediate for every other mnemonic *)
+Definition z80_is_io (op : N) : bool := N.eqb op z80_op_In || N.eqb op z80_op_Out.
+Fixpoint read_z80 (io : bool) (p : list pat) (slot : nat) (f : nat -> nat -> N) : option (list opnd) :=
   match p with
   | [] => Some []
-  | PSym SyComma :: r => read_z80 r slot f
+  | PSym SyComma :: r => read_z80 io r slot f
   | PSym SyLParen :: PReg x :: PSym SyPlus :: PExpr FByte :: PSym SyRParen :: r =>
-    option_map (cons (OIdx x (f slot 0%nat))) (read_z80 r (S slot) f)
-  | PSym SyLParen :: PReg x :: PSym SyRParen :: r => option_map (cons (OInd x)) (read_z80 r slot f)
+    option_map (cons (OIdx x (f slot 0%nat))) (read_z80 io r (S slot) f)
+  | PSym SyLParen :: PReg x :: PSym SyRParen :: r => option_map (cons (OInd x)) (read_z80 io r slot f)
   | PSym SyLParen :: PExpr FByte :: PSym SyRParen :: r =>
-    option_map (cons (OPort (f slot 0%nat))) (read_z80 r (S slot) f)
+    option_map (cons (if io then OPort (f slot 0%nat) else OImm8 (f slot 0%nat))) (read_z80 io r (S slot) f)
   | PSym SyLParen :: PExpr FWord :: PSym SyRParen :: r =>
-    option_map (cons (OMem16 (f slot 0%nat) (f slot 1%nat))) (read_z80 r (S slot) f)
-  | PReg x :: r => option_map (cons (OReg x)) (read_z80 r slot f)
-  | PFlag c :: r => option_map (cons (OCond c)) (read_z80 r slot f)
-  | PExpr FByte :: r => option_map (cons (OImm8 (f slot 0%nat))) (read_z80 r (S slot) f)
-  | PExpr FWord :: r => option_map (cons (OImm16 (f slot 0%nat) (f slot 1%nat))) (read_z80 r (S slot) f)
-  | PExpr FBranch :: r => option_map (cons (ORel (f slot 0%nat))) (read_z80 r (S slot) f)
-  | PSel v :: r => option_map (cons (OLit (Z.to_N v))) (read_z80 r slot f)
-  | PNum v :: r => option_map (cons (OLit (Z.to_N v))) (read_z80 r slot f)
+    option_map (cons (OMem16 (f slot 0%nat) (f slot 1%nat))) (read_z80 io r (S slot) f)
+  | PReg x :: r => option_map (cons (OReg x)) (read_z80 io r slot f)
+  | PFlag c :: r => option_map (cons (OCond c)) (read_z80 io r slot f)
+  | PExpr FByte :: r => option_map (cons (OImm8 (f slot 0%nat))) (read_z80 io r (S slot) f)
+  | PExpr FWord :: r => option_map (cons (OImm16 (f slot 0%nat) (f slot 1%nat))) (read_z80 io r (S slot) f)
+  | PExpr FBranch :: r => option_map (cons (ORel (f slot 0%nat))) (read_z80 io r (S slot) f)
+  | PSel v :: r => option_map (cons (OLit (Z.to_N v))) (read_z80 io r slot f)
+  | PNum v :: r => option_map (cons (OLit (Z.to_N v))) (read_z80 io r slot f)
   | _ => None
   end.
 
 Definition z80_row_ok (r : row) : Prop :=
   forall f, exists ops,
-    read_z80 (r_pat r) 0 f = Some ops /\
+    read_z80 (z80_is_io (r_op r)) (r_pat r) 0 f = Some ops /\
     z80_decode (inst r f) = Some (r_op r, ops, length (inst r f)).
 
